@@ -957,6 +957,8 @@ class EpsilonDominance(Dominance):
         if not dominate1 and not dominate2:
             dist1 = 0.0
             dist2 = 0.0
+            better1 = False
+            better2 = False
 
             for i in range(problem.nobjs):
                 o1 = solution1.objectives[i]
@@ -966,6 +968,11 @@ class EpsilonDominance(Dominance):
                     o1 = -o1
                     o2 = -o2
 
+                if o1 < o2:
+                    better1 = True
+                elif o2 < o1:
+                    better2 = True
+
                 epsilon = float(self.epsilons[i if i < len(self.epsilons) else -1])
                 i1 = math.floor(o1 / epsilon)
                 i2 = math.floor(o2 / epsilon)
@@ -973,7 +980,13 @@ class EpsilonDominance(Dominance):
                 dist1 += math.pow(o1 - i1*epsilon, 2.0)
                 dist2 += math.pow(o2 - i2*epsilon, 2.0)
 
-            if dist1 < dist2:
+            # within a box a Pareto-dominating solution wins outright; the corner
+            # distances can be distorted by rounding at a box boundary
+            if better1 and not better2:
+                return -1
+            elif better2 and not better1:
+                return 1
+            elif dist1 < dist2:
                 return -1
             else:
                 return 1
